@@ -22,6 +22,7 @@ class Ctx:
         self.T = Terms(body, removed, captures=captures, params=params)
         self._atoms = None
         self.assumptions = tuple(assumptions)  # ((predicate on a boolean term, truth value), ...)
+        self.level = 0  # interprocedural evaluation depth (callee evaluated on behalf of a caller)
 
     @property
     def prog(self):
@@ -36,7 +37,9 @@ class Ctx:
         carries the assumption it stands for, so that callees analysed from this context (sub())
         are pruned consistently."""
         extra = tuple(a for a in getattr(more, "assume", ()) if a not in self.assumptions)
-        return Ctx(self.body, self.removed | frozenset(more), self.T.params, self.T.captures, self.assumptions + extra)
+        c = Ctx(self.body, self.removed | frozenset(more), self.T.params, self.T.captures, self.assumptions + extra)
+        c.level = self.level
+        return c
 
     def sub(self, body, params=None, captures=None):
         """context of a callee / closure analysed on behalf of this one: same world assumptions."""
@@ -51,6 +54,19 @@ class Ctx:
     def assume_variant(self, pred, name):
         """world assumption: every enum value accepted by `pred` is of variant `name`."""
         return Ctx(self.body, self.removed, self.T.params, self.T.captures, self.assumptions + ((pred, ("variant", name)),))
+
+    def assume_int(self, pred, value):
+        """world assumption: every integer term accepted by `pred` has this value"""
+        c = Ctx(self.body, self.removed, self.T.params, self.T.captures, self.assumptions + ((pred, ("int", int(value))),))
+        c.level = self.level
+        return c
+
+    def assume_len(self, pred, value):
+        """world assumption: every str / Vec / slice term accepted by `pred` has this length
+        (decides len() comparisons, is_empty(), slice patterns and range tests on the length)"""
+        c = Ctx(self.body, self.removed, self.T.params, self.T.captures, self.assumptions + ((pred, ("len", int(value))),))
+        c.level = self.level
+        return c
 
     def assume_ok(self, pred, ok):
         """world assumption: every Option/Result value accepted by `pred` is Some/Ok (ok) or None/Err."""
@@ -70,14 +86,37 @@ class Ctx:
             # a boolean computed by a small local function: evaluate it under the same assumptions
             cb = _callee_body(self.prog, t)
             if cb is not None and cb.key != self.body.key and cb.kind == "fn" and len(cb.blocks) < 120 and cb.j.get("ret_ty") == "bool":
-                cc = Ctx(cb, params={i + 1: a for i, a in enumerate(t[2])}, assumptions=self.assumptions)
-                rt = cc.settle().T.return_term()
-                if rt[0] == "const" and rt[1] == "bool":
+                rt = self._callee_return(t, cb)
+                if rt is not None and rt[0] == "const" and rt[1] == "bool":
                     return rt
         if t[0] == "call" and t[1] in IS_TESTS and t[2]:
             a = self._assumed_ok(t[2][0])
             if a is not None:
                 return ("const", "bool", a == IS_TESTS[t[1]])
+        if any(isinstance(v, tuple) and v[0] in ("int", "len") for _, v in self.assumptions):
+            co = cmp_operands(t)
+            if co is not None:
+                va, vb = assumed_int(self.assumptions, co[1]), assumed_int(self.assumptions, co[2])
+                if va is not None and vb is not None:
+                    return ("const", "bool", bool(_CMP[co[0]](va, vb)))
+            if t[0] == "call" and t[1] in EMPTY_CALLS and t[2]:
+                for pred, value in self.assumptions:
+                    if isinstance(value, tuple) and value[0] == "len" and pred(t[2][0]):
+                        return ("const", "bool", value[1] == 0)
+            if t[0] == "call" and t[1].split("::")[-1] == "contains" and "ops::Range" in t[1] and len(t[2]) == 2:
+                rng, y = t[2]
+                vy = assumed_int(self.assumptions, y)
+                lo = hi = None
+                incl = "RangeInclusive" in t[1]
+                if rng[0] == "agg":
+                    f = {n: v for _, n, v in rng[3]}
+                    lo, hi = f.get("start"), f.get("end")
+                elif rng[0] == "call" and rng[1].endswith("RangeInclusive::new") and len(rng[2]) == 2:
+                    lo, hi = rng[2]
+                if vy is not None and lo is not None and hi is not None:
+                    vlo, vhi = assumed_int(self.assumptions, lo), assumed_int(self.assumptions, hi)
+                    if vlo is not None and vhi is not None:
+                        return ("const", "bool", vlo <= vy and (vy <= vhi if incl else vy < vhi))
         for pred, value in self.assumptions:
             if isinstance(value, tuple):
                 continue
@@ -86,9 +125,23 @@ class Ctx:
             while x[0] == "un" and x[1] == "Not":
                 x = x[2]
                 neg = not neg
+            if callable(value):
+                v = value(x)
+                if v is not None:
+                    return ("const", "bool", v != neg)
+                continue
             if pred(x):
                 return ("const", "bool", value != neg)
         return t
+
+    def _callee_return(self, callterm, cb):
+        """return term of a small local callee evaluated in this world (None beyond the depth bound)"""
+        if self.level >= 3 or cb.key == self.body.key:
+            return None
+        cc = Ctx(cb, params={i + 1: a for i, a in enumerate(callterm[2])}, assumptions=self.assumptions)
+        cc.level = self.level + 1
+        cc = cc.settle()
+        return cc.T.return_term()
 
     def determined_edges(self):
         """edges that cannot be taken because, in this (pruned) graph, the tested value is a
@@ -101,8 +154,10 @@ class Ctx:
                 if rt is not None and rt[0][0] == "call":
                     cb = _callee_body(self.prog, rt[0])
                     if cb is not None and cb.key != self.body.key and cb.kind == "fn" and len(cb.blocks) < 120:
-                        cc = Ctx(cb, params={i + 1: a for i, a in enumerate(rt[0][2])}, assumptions=self.assumptions).settle()
-                        if not any(e["kind"] != "err" for e in exits(cc)):
+                        cc = Ctx(cb, params={i + 1: a for i, a in enumerate(rt[0][2])}, assumptions=self.assumptions)
+                        cc.level = self.level + 1
+                        cc = cc.settle() if self.level < 3 else cc
+                        if self.level < 3 and not success_exits(cc):
                             for tg in rt[1]:
                                 if tg not in rt[2]:
                                     rem.add((bi, tg))
@@ -117,6 +172,20 @@ class Ctx:
                                 rem.add((bi, tg))
             if atom[0] == "variant":
                 subj = atom[1]
+                if self.assumptions:
+                    s0 = subj[1] if subj[0] == "trybranch" else subj
+                    if s0[0] == "call":
+                        cb = _callee_body(self.prog, s0)
+                        if cb is not None and cb.kind == "fn" and len(cb.blocks) < 200:
+                            rt = self._callee_return(s0, cb)
+                            if rt is not None:
+                                ra = rt[1] if rt[0] == "phi" else (rt,)
+                                # `?` inside the callee: an error variant of unknown payload
+                                ra = [(("agg", "?", "Err", ()) if (a[0] == "call" and a[1] == "std::ops::FromResidual::from_residual") else a) for a in ra]
+                                if all(a[0] == "agg" for a in ra):
+                                    subj = Terms._phi(list(ra))
+                                    if any(a[1] == "?" for a in ra):
+                                        subj = Terms._phi(list(ra) + [("agg", "?", "None", ())])
                 av = self._assumed_variant(subj)
                 if av is not None and av in atom[2]:
                     good = atom[2][av]
@@ -128,12 +197,23 @@ class Ctx:
                 alts = subj[1] if subj[0] == "phi" else (subj,)
                 if all(a[0] == "agg" for a in alts):
                     vs = set(a[2] for a in alts)
+                    if set(atom[2]) <= {"Continue", "Break"}:
+                        # the switch is on Try::branch(subject): Ok/Some continue, Err/None break
+                        vs = set("Continue" if v in ("Ok", "Some", "Continue") else "Break" for v in vs)
                     good = [tg for n, tgs in atom[2].items() if n in vs for tg in tgs]
                     for n, tgs in atom[2].items():
                         if n not in vs:
                             for tg in tgs:
                                 if tg not in good:
                                     rem.add((bi, tg))
+            elif atom[0] == "int" and self.assumptions:
+                v = assumed_int(self.assumptions, atom[1])
+                if v is not None:
+                    good = atom[2].get(str(v), atom[2]["otherwise"])
+                    for k_, tgs in atom[2].items():
+                        for tg in tgs:
+                            if tg not in good:
+                                rem.add((bi, tg))
             elif atom[0] == "bool":
                 t = atom[1]
                 alts = t[1] if t[0] == "phi" else (t,)
@@ -215,6 +295,62 @@ class Ctx:
                 out.append((bi, ("int", term, m)))
         self._atoms = out
         return out
+
+
+LEN_CALLS = {"core::str::len", "std::string::String::len", "std::vec::Vec::len", "core::slice::len", "std::collections::VecDeque::len", "core::slice::<impl [T]>::len"}
+EMPTY_CALLS = {"core::str::is_empty", "std::string::String::is_empty", "std::vec::Vec::is_empty", "core::slice::is_empty"}
+_CMP = {
+    "Lt": lambda a, b: a < b, "Le": lambda a, b: a <= b, "Gt": lambda a, b: a > b, "Ge": lambda a, b: a >= b, "Eq": lambda a, b: a == b, "Ne": lambda a, b: a != b,
+    "std::cmp::PartialOrd::lt": lambda a, b: a < b, "std::cmp::PartialOrd::le": lambda a, b: a <= b,
+    "std::cmp::PartialOrd::gt": lambda a, b: a > b, "std::cmp::PartialOrd::ge": lambda a, b: a >= b,
+    "std::cmp::PartialEq::eq": lambda a, b: a == b, "std::cmp::PartialEq::ne": lambda a, b: a != b,
+}
+
+
+def len_of(t):
+    """x if t denotes the length of x (str / String / Vec / slice, method or MIR metadata read)"""
+    if t[0] == "call" and t[1] in LEN_CALLS and t[2]:
+        return t[2][0]
+    if t[0] == "un" and t[1] == "PtrMetadata":
+        return t[2]
+    return None
+
+
+def literal_int(t):
+    """value of an integer literal term (rules.common installs a folding version)"""
+    if t[0] == "const" and t[1] == "int":
+        return t[2]
+    if t[0] == "cast":
+        return literal_int(t[1])
+    return None
+
+
+INT_VALUE = [literal_int]
+
+
+def cmp_operands(t):
+    """(op, a, b) if t is an integer/ordering comparison"""
+    if t[0] == "bin" and t[1] in _CMP:
+        return t[1], t[2], t[3]
+    if t[0] == "call" and t[1] in _CMP and len(t[2]) == 2:
+        return t[1], t[2][0], t[2][1]
+    return None
+
+
+def assumed_int(assumptions, t):
+    """the value of integer term t in the world: a literal, or fixed by an ('int', v) / ('len', v) assumption"""
+    v = INT_VALUE[0](t)
+    if v is not None:
+        return v
+    x = len_of(t)
+    for pred, value in assumptions:
+        if not isinstance(value, tuple):
+            continue
+        if value[0] == "int" and pred(t):
+            return value[1]
+        if value[0] == "len" and x is not None and pred(x):
+            return value[1]
+    return None
 
 
 def assumed_ok(assumptions, subj):
@@ -327,6 +463,25 @@ def exits(ctx):
     return out
 
 
+def success_exits(ctx):
+    """the exits of ctx that can succeed in its world: error exits are out, and so is a tail call
+    `helper(..)` (delegate exit) to a local function that has no success exit in the same world."""
+    out = []
+    for e in exits(ctx):
+        if e["kind"] == "err":
+            continue
+        if e["kind"] == "delegate" and ctx.assumptions and ctx.level < 3:
+            cb = ctx.prog.body(e["callee"]) if e.get("callee") else None
+            t = e["term"]
+            if cb is not None and cb.kind == "fn" and cb.key != ctx.body.key and t[0] == "call" and (cb.j.get("ret_ty") or "").startswith(("std::result::Result", "core::result::Result", "Result", "std::option::Option", "core::option::Option", "Option")):
+                cc = Ctx(cb, params={i + 1: a for i, a in enumerate(t[2])}, assumptions=ctx.assumptions)
+                cc.level = ctx.level + 1
+                if not success_exits(cc.settle()):
+                    continue
+        out.append(e)
+    return out
+
+
 # ----------------------------------------------------------------------------- P3/P4 guards
 
 
@@ -402,11 +557,31 @@ def _callee_body(prog, callterm):
     return prog.body(callterm[1])
 
 
+def fail_world(ctx, guard):
+    """ctx with the assumption that `guard` fails wherever it is evaluated — including inside local
+    helpers that compute a boolean / Option from it (`if let Some(t) = state.blocked_until(now)`)."""
+    extra = ()
+    if guard.subject:
+        extra += ((guard.subject, ("ok", False)),)
+    if guard.boolean:
+        def failing(t, g=guard.boolean):
+            pol = g(t)
+            return None if pol is None else (not pol)
+        extra += ((None, failing),)
+    if not extra:
+        return ctx
+    if any(a[1] is e[1] or (a[0] is not None and a[0] is e[0] and a[1] == e[1]) for a in ctx.assumptions for e in extra):
+        return ctx
+    c = Ctx(ctx.body, ctx.removed, ctx.T.params, ctx.T.captures, ctx.assumptions + extra)
+    c.level = ctx.level
+    return c
+
+
 def guarded(ctx, guard, prog, depth=3, found=None):
     """P4: is every success-capable exit of ctx.body unreachable once the guard's pass edges are cut?
     returns (bool, offending_exit_or_None)."""
     edges = pass_edges(ctx, guard, prog, depth, found)
-    cut = ctx.with_removed(edges).settle()
+    cut = fail_world(ctx.with_removed(edges), guard).settle()
     reach = cut.T.reach
     for e in exits(ctx):
         if e["bb"] not in reach:
@@ -809,7 +984,7 @@ def _is_pure_small(prog, body):
         return False
     for bi, t in body.calls():
         nm = call_name(t) or ""
-        if nm.startswith(STORE_TYPES):
+        if nm.startswith(STORE_TYPES) and nm.split("::")[-1] in STORE_WRITE:
             return False
     return True
 
@@ -820,11 +995,20 @@ def ok_payload(t, tag="Ok/Some"):
     from .mir import intern
     if t[0] == "trybranch":
         t = t[1]
-    alts = t[1] if t[0] == "phi" else (t,)
+    alts = []
+
+    def flat(x):
+        if x[0] == "trybranch":
+            x = x[1]
+        if x[0] == "phi":
+            for y in x[1]:
+                flat(y)
+        elif x not in alts:
+            alts.append(x)
+
+    flat(t)
     out = []
     for a in alts:
-        if a[0] == "trybranch":
-            a = a[1]
         if a[0] == "agg" and a[2] in ("Ok", "Some") and len(a[3]) == 1:
             v = a[3][0][2]
         elif a[0] == "agg" and a[2] in ("Err", "None") and (a[1].endswith("result::Result") or a[1].endswith("option::Option")):
